@@ -14,6 +14,8 @@ package main
 import (
 	"go/ast"
 	"go/types"
+	"strconv"
+	"strings"
 	"sync"
 )
 
@@ -49,6 +51,27 @@ func paramCanonName(fi *FuncInfo, i int) string {
 		}
 	}
 	return ""
+}
+
+// substText rewrites the text of an expression of helper h (as printed by exprString) into the caller's terms:
+// every parameter of h is replaced by the text of the argument the call passes for it.
+func substText(h *FuncInfo, subst map[types.Object]ast.Expr, s string) string {
+	sig := h.Obj.Type().(*types.Signature)
+	// two passes (placeholders first) so that an argument's text is never itself rewritten
+	args := map[string]string{}
+	for i := 0; i < sig.Params().Len(); i++ {
+		if a, ok := subst[sig.Params().At(i)]; ok {
+			if name := paramCanonName(h, i); name != "" && name != "_" {
+				ph := "\x00" + strconv.Itoa(i) + "\x00"
+				s = replaceIdent(s, name, ph)
+				args[ph] = exprString(a)
+			}
+		}
+	}
+	for ph, a := range args {
+		s = strings.ReplaceAll(s, ph, a)
+	}
+	return s
 }
 
 // roleOfType maps a parameter type to the base of its canonical name.
